@@ -362,30 +362,3 @@ fn upper_ascii_agree() {
     assert!(it.next() == Some(ascii_upper(b) as char));
     assert!(it.next().is_none());
 }
-#[kani::proof]
-#[kani::unwind(14)]
-fn exp_sn_eq() {
-    let s: [u8; 2] = kani::any();
-    kani::assume(s[0] < 0x80 && s[1] < 0x80 && s[0] != b' ' && s[1] != b' ' && s[0] != 0x05);
-    let mut sfn = [b' '; 11];
-    sfn[0] = s[0];
-    sfn[1] = s[1];
-    let q: [u8; 2] = kani::any();
-    kani::assume(q[0] < 0x80 && q[1] < 0x80);
-    let name = unsafe { core::str::from_utf8_unchecked(&q[..2]) };
-    let got = ShortName::new(&sfn).eq_ignore_case(name, &LossyOemCpConverter::new());
-    assert!(got == (ascii_upper(q[0]) == ascii_upper(s[0]) && ascii_upper(q[1]) == ascii_upper(s[1])));
-}
-#[cfg(all(feature = "alloc", feature = "lfn"))]
-#[kani::proof]
-#[kani::unwind(14)]
-fn exp_eq_conc() {
-    let g = Geo::small(FatType::Fat16, 6);
-    let fs = core::mem::ManuallyDrop::new(mk_fs_plain(LogDev::new(u64::MAX), &g, NullTimeProvider::new(), false));
-    let e = core::mem::ManuallyDrop::new(mk_entry(&*fs, *b"XY         ", &[b'A' as u16, b'b' as u16]));
-    let q: [u8; 2] = kani::any();
-    kani::assume(q[0] < 0x80 && q[1] < 0x80);
-    let name = unsafe { core::str::from_utf8_unchecked(&q[..2]) };
-    let got = e.eq_name(name);
-    assert!(got == ((ascii_upper(q[0]) == b'A' && ascii_upper(q[1]) == b'B') || (ascii_upper(q[0]) == b'X' && ascii_upper(q[1]) == b'Y')));
-}
